@@ -2,6 +2,7 @@ package util
 
 import (
 	"fmt"
+	"math/big"
 	"strings"
 
 	"github.com/berquerant/crd/errorx"
@@ -22,6 +23,11 @@ func NewRat(num, denom uint) Rat {
 
 func (r Rat) Float() float64 {
 	return float64(r.Num) / float64(r.Denom)
+}
+
+// Big returns the exact value.
+func (r Rat) Big() *big.Rat {
+	return new(big.Rat).SetFrac(new(big.Int).SetUint64(uint64(r.Num)), new(big.Int).SetUint64(uint64(r.Denom)))
 }
 
 func (r Rat) String() string {
